@@ -12195,7 +12195,7 @@ func E11ViewScaleInvariant(c *core.Ctx, r *core.Report) {
 
 // E11ImageExtentFromSize: the extent of an image is the size of its rectangle, not its far corner.
 func E11ImageExtentFromSize(c *core.Ctx, r *core.Report) {
-	r.Rule("E11.image-extent-from-size", "an image.Image may have a rectangle that does not start at (0,0) (a SubImage crop); renderers and Canvas.Fit treat it as occupying (0,0)–(Size) in its own pixel space. In canvas.go every use of the far corner of an image rectangle (`.Max.X`, `.Max.Y` of a value of type image.Rectangle) occurs in an expression that also takes the near corner of the same axis (`Max − Min`), or the extent is taken with Size()/Dx()/Dy(). An extent or a reflection axis computed from Max alone is off by Min: a cropped image drawn under CartesianII–IV stays upright but is displaced")
+	r.Rule("E11.image-extent-from-size", "an image.Image may have a rectangle that does not start at (0,0) (a SubImage crop); renderers and Canvas.Fit treat it as occupying (0,0)–(Size) in its own pixel space. In canvas.go every use of the far corner of an image rectangle (`.Max.X`, `.Max.Y` of a value of type image.Rectangle) is the minuend of a subtraction whose subtrahend is the near corner of the same rectangle and axis (`Max − Min`, conversions looked through), or the extent is taken with Size()/Dx()/Dy(). An extent or a reflection axis computed from Max alone is off by Min: a cropped image drawn under CartesianII–IV stays upright but is displaced")
 	p := c.MustPkg("")
 	info := p.TypesInfo
 	isRect := func(e ast.Expr) bool {
@@ -12251,19 +12251,40 @@ func E11ImageExtentFromSize(c *core.Ctx, r *core.Report) {
 			n++
 			key := fmt.Sprintf("canvas.%s|image extent #%d", core.FuncName(fd), k)
 			// the enclosing expression up to the statement mentions the Min of the same axis
+			// the far corner is the minuend of a subtraction whose subtrahend is the near corner of the same
+			// rectangle and axis (conversions and parentheses in between are looked through)
 			paired := false
-			for i := len(stack) - 2; i >= 0; i-- {
-				if _, isStmt := stack[i].(ast.Stmt); isStmt {
-					break
+			stripConv := func(e ast.Expr) ast.Expr {
+				for {
+					e = core.Unparen(e)
+					call, ok := e.(*ast.CallExpr)
+					if !ok || len(call.Args) != 1 {
+						return e
+					}
+					if tv, ok := info.Types[call.Fun]; !ok || !tv.IsType() {
+						return e
+					}
+					e = call.Args[0]
 				}
-				ast.Inspect(stack[i], func(q ast.Node) bool {
-					if s2, ok := q.(*ast.SelectorExpr); ok && s2.Sel.Name == se.Sel.Name {
-						if in2, ok := core.Unparen(s2.X).(*ast.SelectorExpr); ok && in2.Sel.Name == "Min" && isRect(in2.X) {
-							paired = true
+			}
+			for i := len(stack) - 2; i >= 0; i-- {
+				switch x := stack[i].(type) {
+				case *ast.ParenExpr:
+					continue
+				case *ast.CallExpr:
+					if tv, ok := info.Types[x.Fun]; ok && tv.IsType() {
+						continue
+					}
+				case *ast.BinaryExpr:
+					if x.Op == token.SUB && stripConv(x.X) == ast.Expr(se) {
+						if s2, ok := stripConv(x.Y).(*ast.SelectorExpr); ok && s2.Sel.Name == se.Sel.Name {
+							if in2, ok := core.Unparen(s2.X).(*ast.SelectorExpr); ok && in2.Sel.Name == "Min" && types.ExprString(in2.X) == types.ExprString(inner.X) {
+								paired = true
+							}
 						}
 					}
-					return true
-				})
+				}
+				break
 			}
 			if paired {
 				r.OK("E11.image-extent-from-size", key, c.Pos(se.Pos()), "Max − Min")
@@ -13711,4 +13732,84 @@ func E11LeadingCutExact(c *core.Ctx, r *core.Report) {
 	}
 	r.Count("E11.leading-cut-sites", n)
 	r.Floor("E11.leading-cut-sites", 1)
+}
+
+// E11SVGMatrixOrder: matrix(a,b,c,d,e,f) of SVG is column-major.
+func E11SVGMatrixOrder(c *core.Ctx, r *core.Report) {
+	r.Rule("E11.svg-matrix-order", "SVG's `matrix(a,b,c,d,e,f)` maps (x,y) to (a·x + c·y + e, b·x + d·y + f): the arguments run down the columns. Wherever the module formats a string `matrix(%v,…)` with six verbs, each argument contains exactly one element of a Matrix and the elements are, in order, [0][0], [1][0], [0][1], [1][1], [0][2], [1][2]; the two off-diagonal arguments carry the same sign treatment (both negated for the axis flip, or neither). Written row by row the string denotes the transposed linear part — invisible for symmetric matrices (the ones the tests use), wrong for every shear")
+	n := 0
+	for _, rel := range []string{"", "renderers/svg"} {
+		p := c.MustPkg(rel)
+		info := p.TypesInfo
+		for _, fd := range core.AllFuncDecls(p) {
+			if fd.Body == nil {
+				continue
+			}
+			ast.Inspect(fd.Body, func(m ast.Node) bool {
+				call, ok := m.(*ast.CallExpr)
+				if !ok {
+					return true
+				}
+				fi := -1
+				for i, a := range call.Args {
+					if s, ok := constString(info, a); ok && strings.Contains(s, "matrix(") && strings.Count(s, "%") == 6 {
+						fi = i
+					}
+				}
+				if fi < 0 || len(call.Args) != fi+7 {
+					return true
+				}
+				n++
+				key := fmt.Sprintf("%s.%s|matrix(…) #%d", map[string]string{"": "canvas"}[rel]+rel, core.FuncName(fd), n)
+				want := [][2]int64{{0, 0}, {1, 0}, {0, 1}, {1, 1}, {0, 2}, {1, 2}}
+				bad := ""
+				neg := make([]bool, 6)
+				for k := 0; k < 6; k++ {
+					arg := call.Args[fi+1+k]
+					var got [][2]int64
+					ast.Inspect(arg, func(q ast.Node) bool {
+						outer, ok := q.(*ast.IndexExpr)
+						if !ok {
+							return true
+						}
+						inner, ok := core.Unparen(outer.X).(*ast.IndexExpr)
+						if !ok || !isNamed(info.TypeOf(inner.X), "tdewolff/canvas", "Matrix") {
+							return true
+						}
+						i, ok1 := core.ConstInt(info, inner.Index)
+						j, ok2 := core.ConstInt(info, outer.Index)
+						if ok1 && ok2 {
+							got = append(got, [2]int64{i, j})
+						}
+						return false
+					})
+					ast.Inspect(arg, func(q ast.Node) bool {
+						if u, ok := q.(*ast.UnaryExpr); ok && u.Op == token.SUB {
+							neg[k] = !neg[k]
+						}
+						return true
+					})
+					if len(got) != 1 {
+						bad = fmt.Sprintf("argument %d `%s` does not contain exactly one matrix element", k+1, c.Src(arg))
+						break
+					}
+					if got[0] != want[k] {
+						bad = fmt.Sprintf("argument %d is the element [%d][%d], the column-major order of SVG wants [%d][%d] there (`%s`)", k+1, got[0][0], got[0][1], want[k][0], want[k][1], c.Src(arg))
+						break
+					}
+				}
+				if bad == "" && neg[1] != neg[2] {
+					bad = "the two off-diagonal arguments are not negated alike"
+				}
+				if bad == "" {
+					r.OK("E11.svg-matrix-order", key, c.Pos(call.Pos()), "")
+				} else {
+					r.Fail("E11.svg-matrix-order", key, c.Pos(call.Pos()), bad+": the string denotes another transformation than the matrix (for a shear, its transpose)")
+				}
+				return true
+			})
+		}
+	}
+	r.Count("E11.svg-matrix-sites", n)
+	r.Floor("E11.svg-matrix-sites", 1)
 }
